@@ -14,6 +14,7 @@ pub fn run(ctx: &Ctx) {
         ms.push(("invalid-utf8".into(), (0..len).map(|i| [0xff, 0xfe, 0xc3, 0x28][i % 4]).collect())); ms.push(("latin1".into(), (0..len).map(|i| 0xe0 + (i % 16) as u8).collect()));
         ms.push(("zeros".into(), vec![0; len])); ms.push(("utf8".into(), "h\u{e9}llo \u{1f600}".bytes().cycle().take(len).collect())); ms.push(("newlines".into(), (0..len).map(|i| if i % 3 == 0 { b'\n' } else { b'a' }).collect())); ms.push(("crlf-tail".into(), [vec![b'x'; len], b"\r\n".to_vec()].concat()));
     }
+    for core in [b"hello world".as_slice(), b"\x00\x01\xfe\xff"] { for (n, m) in explore::affix_classes(core) { ms.push((format!("affix-{n}"), m)); } }
     ms.push(("starts-with-prefix".into(), b"\x19Ethereum Signed Message:\n5hello".to_vec())); ms.push(("raw-32-byte-hash".into(), refmodel::hash::keccak256(b"x").to_vec()));
     ctx.sweep("cli-messages", "`hash message` and `sign message` x {file, stdin} on messages of 20 lengths (0 .. 10^6, around every digit-count change) and content classes (invalid UTF-8, Latin-1, zeros, UTF-8, line feeds, CR LF tail, prefix look-alike, raw hash)", (ms.len() * 4) as u64, |i| {
         let (class, m) = &ms[i as usize / 4]; let sign = i % 2 == 1; let via_stdin = (i / 2) % 2 == 1;
